@@ -1228,7 +1228,11 @@ def _arrow_explicit_plan(s):
             continue
         if c['dead'] or o not in declared or c['kind'] == 'row' or len(of) < 2:
             of.append(o)
-    wrt = [d for d in s['dvs']]
+    # no dead seeds in this family: only design variables that some chosen output depends on, and vice versa
+    from omv.gen import c24_arrow as A
+    dep = A.arrow_deps(s)
+    wrt = [d for d in s['dvs'] if any(d['name'] in dep[o] for o in of)]
+    of = [o for o in of if any(d['name'] in dep[o] for d in wrt)]
     if len(wrt) > 1:
         wrt = wrt[1:] + wrt[:1]
     return [{'name': o, 'idx': None} for o in of], wrt
@@ -1306,7 +1310,7 @@ def _run_arrow_twin(s, norel):
                     out['res']['values-after'] = np.concatenate([np.array(prob.get_val(n)).ravel() for n in allout])
             out['failures'] = [f for f in fmon.failures if not f[5]]
             out['sparsity-failures'] = sum(1 for f in fmon.failures if f[5])
-            out['src2spec'] = {prob.model.get_source(n): n for n in names_r + names_d}
+            out['src2spec'] = {prob.model.get_source(n): n for n in allout + names_d}
             out['active'] = prob.model._relevance._active
             col = prob.driver._coloring_info.coloring
             out['colmodes'] = tuple(col.modes()) if col is not None else ()
@@ -1375,12 +1379,7 @@ def _case_arrow(case, acc):
     names_r = [r for r in s['resps'] if r['kind'] == 'obj'] + [r for r in s['resps'] if r['kind'] == 'con']
     if on['failures']:
         kinds_f = sorted(set(f[0] for f in on['failures']))
-        _, jac0 = A.arrow_eval(s, s['points'][0])
-        dep_a = {}
-        for r in s['resps']:
-            dep_a[r['name']] = set(d['name'] for d in s['dvs']
-                                   if np.any(A.arrow_totals(s, jac0, [{'name': r['name'], 'idx': None}],
-                                                            [{'name': d['name'], 'idx': None}]) != 0.0))
+        dep_a = A.arrow_deps(s)
         fc = _fail_class(on['failures'], on.get('src2spec', {}), dep_a)
         bad.append(('SOLVERFAIL|%s|%s' % (fc, '+'.join(kinds_f)), '',
                     '%d solver failure report(s) with relevance enabled, none with relevance disabled: %s'
